@@ -116,6 +116,9 @@ func runC04(c *Ctx) {
 	for i, d := range chunkBoundaryDocs() {
 		one(i, "chunk-boundary", d)
 	}
+	for i, d := range hugeBlankRunDocs() {
+		one(i, "huge-blank-run", d)
+	}
 	// truncations of every corpus document (unterminated constructs at end of input)
 	corpus := corpusDocs()
 	step := 1
@@ -393,6 +396,14 @@ func runC08(c *Ctx) {
 	for i, d := range chunkBoundaryDocs() {
 		one(i*4, "chunk-boundary", d)
 	}
+	for i, d := range hugeBlankRunDocs() {
+		c.fam("huge-blank-run", "cases", 1)
+		for _, s := range []sched{{"whole", nil, false}, {"whole+eof", nil, true}} {
+			if r := compare(d, s); r != "" {
+				c.report("stream:"+kindOfFailure(r)+":"+s.name, d[:40], "huge-blank-run", fmt.Sprintf("%s schedule=%s on document %d of hugeBlankRunDocs (%d bytes)", r, s.name, i, len(d)), nil, nil)
+			}
+		}
+	}
 }
 
 func isASCII(b []byte) bool {
@@ -572,6 +583,12 @@ func runC09(c *Ctx) {
 	}
 	for i, d := range corpusDocs() {
 		one(i, "corpus", d, true)
+	}
+	for i, d := range longLabelDocs() {
+		if c.quick() && i%3 != 0 {
+			continue
+		}
+		one(i, "long-labels", d, false)
 	}
 	for i := 0; i < c.N(8000, 200000); i++ {
 		d := genInlineRich(newRng(c.Seed, "c09-rich", i), false)
